@@ -909,8 +909,13 @@ class tensor:
                     if np.array_equal(self.data, Y.data):
                         all_diffs[p_idx] = 0
                     else:
+                        # Differences in float: boolean data cannot be subtracted
+                        # and unsigned differences wrap around
                         all_diffs[p_idx] = np.max(
-                            np.abs(self.data.ravel() - Y.data.ravel())
+                            np.abs(
+                                self.data.ravel().astype(float)
+                                - Y.data.ravel().astype(float)
+                            )
                         )
                     p_idx += 1
 
